@@ -463,7 +463,10 @@ func (h *NtfnsHandler) filterTx(dbtx mwdb.ReadTransaction, tx *wire.MsgTx, block
 					// look through the transaction the block is being applied in: a
 					// separate read transaction does not see credits added by earlier
 					// blocks of the same (reorg / catch-up) batch
-					exist := h.walletMgr.utxoStore.ExistCreditFromTx(dbtx, &txIn.PreviousOutPoint.Hash)
+					exist, err := h.walletMgr.utxoStore.ExistCreditFromTx(dbtx, &txIn.PreviousOutPoint.Hash)
+					if err != nil {
+						return false, nil, err
+					}
 					if !exist {
 						continue
 					}
